@@ -118,7 +118,7 @@ Proof.
     constructor; simpl; assumption.
 Qed.
 
-Lemma g_addnodes_spec ns : forall g, exists g1 r, g_addnodes g ns = Some (g1, r) /\ kept_fresh g g1.
+Lemma g_addnodes_go_spec ns : forall g, exists g1 r, g_addnodes_go g ns = Some (g1, r) /\ kept_fresh g g1.
 Proof.
   induction ns as [|n r IH]; intros g; simpl.
   - exists g, (Ok tt). split; [reflexivity | apply kept_fresh_refl].
@@ -126,6 +126,13 @@ Proof.
     + destruct (IH g1) as [g2 [r2 [H2 K2]]]. exists g2, r2. split; [rewrite H1; exact H2|].
       eapply kept_fresh_trans; eassumption.
     + exists g1, (Raise e). split; [rewrite H1; reflexivity | exact K1].
+Qed.
+
+Lemma g_addnodes_spec ns : forall g, exists g1 r, g_addnodes g ns = Some (g1, r) /\ kept_fresh g g1.
+Proof.
+  intros g. unfold g_addnodes. destruct (existsb (g_foreign g) ns).
+  - exists g, (Raise ValueError). split; [reflexivity | apply kept_fresh_refl].
+  - apply g_addnodes_go_spec.
 Qed.
 
 (* the naming operations of the graph *)
